@@ -180,6 +180,60 @@ Definition party_start (bind : bool) (e : env) (future : list msg) : pstate * li
 Definition party_final_from (bind : bool) (e : env) (future ms : list msg) : pstate :=
   fold_left (fun ps m => fst (party_step bind e ps m)) ms (fst (fst (party_start bind e future))).
 
+(* ---- message ids inside a party: baseParty.StoreMessage, Round.CanAccept, round1.Start ----
+   Every verify message carries an id (net/msg_decode.go: the hash of its raw bytes).  While round0 is
+   still checking the proposal a verify message handed to the party is stored under its id unless that
+   id is already stored (CanAccept: -1).  round1.Start replays the stored messages in Go-map order
+   [ford] and - unless Update returned an error - marks all their ids processed, whether or not the
+   shares verified.  From then on a message whose id is processed is refused unread. *)
+Section Ids.
+Variable I : Type.
+Variable ieq : I -> I -> bool.
+
+Definition imem (i : I) (l : list I) : bool := existsb (ieq i) l.
+
+Fixpoint istore (acc : list (I * msg)) (ms : list (I * msg)) : list (I * msg) * list bool :=
+  match ms with
+  | [] => (acc, [])
+  | im :: r =>
+      if imem (fst im) (map fst acc) then let '(a, l) := istore acc r in (a, false :: l)
+      else let '(a, l) := istore (acc ++ [im]) r in (a, true :: l)
+  end.
+
+Variable ford : list (I * msg) -> list (I * msg).
+
+Record iparty := IParty { ip_ps : pstate; ip_processed : list I }.
+
+Definition istart (bind : bool) (e : env) (stored : list (I * msg)) : iparty * list outcome * term :=
+  let fut := ford stored in
+  let '(ps, l, t) := party_start bind e (map snd fut) in
+  (IParty ps (match t with TErrExisted => [] | _ => map fst fut end), l, t).
+
+Inductive iout := IRefused | IOut (o : outcome * term).
+
+Definition istep (bind : bool) (e : env) (ip : iparty) (im : I * msg) : iparty * iout :=
+  match p_phase (ip_ps ip) with
+  | Collecting =>
+      if imem (fst im) (ip_processed ip) then (ip, IRefused)
+      else let '(ps', o) := party_step bind e (ip_ps ip) (snd im) in (IParty ps' (ip_processed ip), IOut o)
+  | _ => let '(ps', o) := party_step bind e (ip_ps ip) (snd im) in (IParty ps' (ip_processed ip), IOut o)
+  end.
+
+Fixpoint irun (bind : bool) (e : env) (ip : iparty) (ms : list (I * msg)) : iparty * list iout :=
+  match ms with
+  | [] => (ip, [])
+  | im :: r =>
+      let '(ip', o) := istep bind e ip im in
+      let '(ipf, l) := irun bind e ip' r in (ipf, o :: l)
+  end.
+
+(* the party after the messages [deliv] handed over while round0 was still checking and the messages
+   [ms] afterwards *)
+Definition ifinal (bind : bool) (e : env) (deliv ms : list (I * msg)) : pstate :=
+  ip_ps (fst (irun bind e (fst (fst (istart bind e (fst (istore [] deliv))))) ms)).
+
+End Ids.
+
 (* ---- before the round: Processor.OnMessageVerify / OnMessageCast / waitUntilDone
    (processor_party.go) for the block with hash [e_bh e] ----
    A verify message is routed by its BlockHash field: to the party registered under that hash if there
